@@ -582,7 +582,7 @@ func (vm *VM) nextCall() bool {
 				numPanicked := 0
 				for j, c := range vm.calls {
 					if c.status == panicked || c.status == recovered && j != i {
-						numPanicked++
+						numPanicked += c.numPanics()
 					}
 				}
 				num := 0
@@ -594,6 +594,7 @@ func (vm *VM) nextCall() bool {
 					vm.panic = p
 				}
 				call.status = returned
+				call.panics = 0
 				vm.calls[i] = call
 			}
 			if i > 0 {
@@ -621,6 +622,14 @@ func (vm *VM) nextCall() bool {
 					// of the panicked call.
 					panicking := vm.calls[i+1]
 					panicking.status = panicked
+					// The calls above the deferred call are removed: their
+					// panics become panics of the panicking call.
+					panicking.panics = 0
+					for _, c := range vm.calls[i+1:] {
+						if c.status == panicked || c.status == recovered {
+							panicking.panics += c.numPanics()
+						}
+					}
 					if fn := panicking.cl.fn; fn != nil {
 						vm.swapStack(&call.fp, &panicking.fp, fn.NumReg)
 					}
@@ -964,6 +973,18 @@ type callFrame struct {
 	pc          Addr       // program counter.
 	status      callStatus // status.
 	numVariadic int8       // number of variadic arguments.
+	panics      int        // number of panics of a panicked or recovered call, if greater than one.
+}
+
+// numPanics returns the number of panics that a panicked or recovered call
+// stands for. It is greater than one if a deferred call, that has recovered
+// the panic of the call, has panicked in turn: the recovered panic remains
+// until the new one is over.
+func (c *callFrame) numPanics() int {
+	if c.panics > 1 {
+		return c.panics
+	}
+	return 1
 }
 
 type callable struct {
